@@ -1,6 +1,9 @@
 from props import P
 
 CFG = P(
+        variants={
+            "preempt": dict(pairs_text="15 canvas operations (fill_rect, blit, mask_blit, blend_blit, draw_line, draw_text, transforms, assignment) and PPM/BMP/PNG save->load round trips, each on its own Image objects", harness=["harness/C07_preempt.cc"], harness_deps_extra=["harness/preempt_pure.hh", "engine/preempt.hh"], src_cxxflags={"Image.cc": ["-fsanitize-coverage=trace-pc"]}, first=True, tiers=["quick", "thorough"], no_tls=["Image.cc"]),
+        },
         harness=["harness/C07.cc", "harness/C07_r2.cc", "harness/C07_r3.cc"], harness_deps=["harness/C07_model.hh", "harness/C07_ops.hh"], srcs=["Image.cc", "Strings.cc", "Filesystem.cc", "Process.cc", "Time.cc", "Encoding.cc"],
         oracle=None,
         flags=[], cxxflags=[], ldflags=[], harness_cxxflags=["-O2"],
